@@ -35,7 +35,7 @@ static std::string hex(const valtype& v) { return HexStr(v); }
 static std::vector<valtype> unhex_list(const std::string& s) {
     std::vector<valtype> r;
     if (s == "-") return r;
-    for (auto& p : split(s, ',')) { valtype v; unhex(p.empty() ? "-" : p, v); r.push_back(v); }
+    for (auto& p : split(s, ',')) { valtype v; unhex((p.empty() || p == "_") ? "-" : p, v); r.push_back(v); }
     return r;
 }
 static uint64_t fnv1a(uint64_t h, const std::string& s) {
@@ -49,10 +49,12 @@ static std::string join_items(const std::vector<valtype>& st) {
     for (size_t i = 0; i < st.size(); i++) { if (i) s += ","; s += hex(st[i]); }
     return s;
 }
+// conditional nesting as Bitcoin defines its observable content: depth and position of the first false level
+// (levels above the first false one are unobservable by construction of ConditionStack)
 static std::string cond_bits(const ConditionStack& c) {
-    std::string s;
-    for (size_t i = 0; i < c.size(); i++) s += c.at(i) ? '1' : '0';
-    return s;
+    std::string s = std::to_string(c.size()) + ":";
+    for (size_t i = 0; i < c.size(); i++) if (!c.at(i)) return s + std::to_string(i);
+    return s + "-";
 }
 static std::string obs(const InterpreterEnv& env) {
     return join_items(env.stack) + "|" + join_items(env.altstack) + "|" + cond_bits(env.vfExec);
@@ -116,8 +118,8 @@ static bool setup(Instance& inst, const RunCfg& c, std::string& why) {
         inst.execdata.m_annex_init = true; inst.execdata.m_annex_present = false;
         inst.execdata.m_tapleaf_hash_init = true;
     }
+    inst.allow_disabled_opcodes = c.z;
     if (!inst.setup_environment(c.flags)) { why = "REFUSED:" + errname(inst.error); return false; }
-    inst.env->allow_disabled_opcodes = c.z;
     return true;
 }
 
@@ -151,7 +153,7 @@ static std::string cmd_run(const std::vector<std::string>& a, bool verbose) {
         o << "steps=" << n << " hs=";
         uint64_t hh = FNV_INIT; for (auto& h : hs) hh = fnv1a(hh, h);
         char b[32]; snprintf(b, 32, "%016llx", (unsigned long long)hh); o << b;
-        o << " end=" << end_of(inst, ok) << " final=" << obs(*inst.env) << " done=" << (inst.env->done ? 1 : 0);
+        o << " end=" << end_of(inst, ok) << " final=" << (ok ? obs(*inst.env) : std::string("-")) << " done=" << ((ok && inst.env->done) ? 1 : 0);
         if (verbose) o << " trace=" << vtrace;
     }
     // 2. run to completion (ContinueScript, as non-interactive btcdeb does, but guarded)
@@ -159,18 +161,12 @@ static std::string cmd_run(const std::vector<std::string>& a, bool verbose) {
         Instance inst; std::string why;
         setup(inst, c, why);
         std::string r;
-        try { bool ok = ContinueScript(*inst.env); r = ok ? "OK" : "ERR:" + errname(inst.error); }
+        bool ok = false;
+        try { ok = ContinueScript(*inst.env); r = ok ? "OK" : "ERR:" + errname(inst.error); }
         catch (const std::exception& e) { r = "EXC"; }
-        o << " cont=" << r << "/" << obs(*inst.env);
+        o << " cont=" << r << "/" << (ok ? obs(*inst.env) : std::string("-"));
     }
-    // 3. the tree's batch EvalScript (third voice; it has no allow_disabled_opcodes switch)
-    if (!c.z && !c.has_w) {
-        std::vector<valtype> st = c.stack; ScriptError err = SCRIPT_ERR_UNKNOWN_ERROR;
-        BaseSignatureChecker chk;
-        CScript s(c.script.begin(), c.script.end());
-        bool ok = EvalScript(st, s, c.flags, chk, (SigVersion)c.sigver, &err);
-        o << " eval=" << (ok ? "OK" : "ERR:" + errname(err)) << "/" << join_items(st);
-    }
+    // (the tree's batch EvalScript/VerifyScript are dead code with uninitialised members; not used as a voice)
     return o.str();
 }
 
@@ -196,6 +192,7 @@ int main(int argc, char** argv) {
     // results go to a dup of the original stdout, fd 1 is pointed at /dev/null.
     int outfd = dup(1);
     FILE* out = fdopen(outfd, "w");
+    setvbuf(out, nullptr, _IOLBF, 0);   // a crash must lose no answered line: the first unanswered line is the one that killed us
     freopen("/dev/null", "w", stdout);
     if (argc > 1 && !strcmp(argv[1], "--keep-stderr")) {} else freopen("/dev/null", "w", stderr);
     std::string line;
